@@ -6,6 +6,7 @@ from ..vm import Prog, expect_ok, expect_exc, lit_repr
 from . import seqs, maps
 
 ID = "C12"
+ALT_BUILD = True          # a quarter of the workers run the gcc -O0 build (core.py)
 LEVEL = "fault_enumeration"
 BUDGET = {"quick": 1500, "thorough": 360000}
 RULE = ("case = a valid op prefix (generators of C02-C04/C16) bringing an Array/List/Tuple/Table/Tree/String/Range/Slice/"
